@@ -581,7 +581,8 @@ theorem run_date_offset (o : DateOffset) (ho : okDateOffset o = true) (hne : o ‚
 theorem run_date_offset_none (inp : List Char) (H1 : NoDayOffset inp)
     (H3 : run (.seq g_plus_or_minus g_wday) false inp = none) : run g_date_offset false inp = none := by
   have hdn := run_day_offset_none false inp H1
-  have ha1 : run (.seq (.seq g_plus_or_minus g_wday) g_day_offset) false inp = none := seq_none_left H3
+  have ha1 : run (.seq g_plus_or_minus (.seq g_wday g_day_offset)) false inp = none := by
+    rw [‚Üê run_seq_reassoc]; exact seq_none_left H3
   simp only [g_date_offset, run_rule, run_alt, Bool.or_self, ha1, H3, hdn]
 
 /-- the optional date offset, present or not -/
